@@ -372,6 +372,19 @@ Definition info_eqb (a b : gen_error + (option retry_info * option Q)) : bool :=
   | inr (r, t), inr (r', t') => option_eqb ri_eqb r r' && optq_eqb t t'
   | _, _ => false
   end.
+(* what is found installed on a live transport: the default Retry object (its three delays, the status codes its
+   predicate accepts among the error codes, its overall deadline) and the default timeout *)
+Definition ERROR_CODES : list string := filter (fun c => negb (String.eqb c "OK")) STATUS_CODES.
+Definition installed_eqb (row : emitted) (obs : option (Q * Q * Q * list string * option Q)) (obs_timeout : option Q) : bool :=
+  optq_eqb (e_timeout row) obs_timeout &&
+  match option_map effective (e_retry row), obs with
+  | None, None => true
+  | Some p, Some (i, m, k, codes, d) =>
+      Qeq_bool (r_initial p) i && Qeq_bool (r_maximum p) m && Qeq_bool (r_multiplier p) k
+      && list_eqb String.eqb (filter (accepts (r_classes p)) ERROR_CODES) codes && optq_eqb (r_deadline p) d
+  | _, _ => false
+  end.
+
 (* observed numbers are floating point: a sleep may exceed the exact one by rounding only *)
 Definition q_close (eps a b : Q) : bool := Qle_bool (a - eps) b && Qle_bool b (a + eps).
 Definition trace_close (eps tol : Q) (model : trace) (attempts : nat) (sleeps : list Q) (timeouts : list (option Q)) (f : final) : bool :=
